@@ -54,6 +54,12 @@ func ReadFrom(r io.Reader) (*Index, error) {
 	if int32(idx.depth) < 0 {
 		return nil, errors.New("csi: invalid index depth value")
 	}
+	// Bin numbers are 32 bits wide, which allows eleven levels, and
+	// positions are shifted by minShift+3*depth bits of an int64.
+	const maxDepth, maxShift = 10, 32
+	if idx.depth > maxDepth || idx.minShift > maxShift {
+		return nil, fmt.Errorf("csi: index geometry out of range: min_shift=%d depth=%d", idx.minShift, idx.depth)
+	}
 	var n int32
 	err = binary.Read(r, binary.LittleEndian, &n)
 	if err != nil {
